@@ -80,6 +80,11 @@ func VxH_C11_lines() {
 		extra = "span{padding-left:5px;padding-right:15px} p{direction:rtl} "
 		words = []string{"aa", "bbb", "c", "dddd", "ee"}
 	}
+	indent := pr.Float(0) // text-indent, first line only
+	if variant == 0 && vx.Choose("text-indent", 2) == 1 {
+		indent = 20
+		extra += "p{text-indent:20px} "
+	}
 	W := pr.Float(vx.F32("width"))
 	vx.Assume(vx.And(W >= 10, W <= 200))
 	css := "html,body{margin:0;padding:0} p{display:block;margin:0;font-size:10px;line-height:10px;white-space:" + ws + ";text-align:" + aligns[align] + "} " + extra
@@ -132,8 +137,12 @@ func VxH_C11_lines() {
 			}
 		}
 		used := l.right - l.left
+		ind := pr.Float(0)
+		if i == 0 {
+			ind = indent
+		}
 		if ws != "nowrap" {
-			vx.Assert("line-fits-or-single-unit:"+id, vx.Or(single, float64(used) <= float64(W)+1e-3))
+			vx.Assert("line-fits-or-single-unit:"+id, vx.Or(single, float64(used+ind) <= float64(W)+1e-3))
 		} else {
 			vx.Assert("nowrap-single-line", len(lines) == 1)
 		}
@@ -141,14 +150,14 @@ func VxH_C11_lines() {
 			vx.Assert("line-width-is-text-width:"+id, eq(used, pr.Float(10*len(t))))
 		}
 		// alignment of a line that fits
-		if float64(used) <= float64(W) {
+		if float64(used+ind) <= float64(W) {
 			switch aligns[align] {
 			case "left":
-				vx.Assert("align-left:"+id, eq(l.left, X))
+				vx.Assert("align-left:"+id, eq(l.left, X+ind))
 			case "right":
 				vx.Assert("align-right:"+id, eq(l.right, X+W))
 			case "center":
-				vx.Assert("align-center:"+id, eq(l.left-X, X+W-l.right))
+				vx.Assert("align-center:"+id, eq(l.left-(X+ind), X+W-l.right))
 			}
 		}
 		// stacking
@@ -168,7 +177,7 @@ func VxH_C11_lines() {
 		k += nw + 1
 		if plain && ws != "nowrap" && i+1 < len(lines) && k < len(words) && k != forcedBefore {
 			next := pr.Float(10 * len(words[k]))
-			vx.Assert("break-only-when-next-word-does-not-fit:"+id, float64(used+10+next) > float64(W))
+			vx.Assert("break-only-when-next-word-does-not-fit:"+id, float64(used+ind+10+next) > float64(W))
 		}
 		if k == forcedBefore && i+1 < len(lines) {
 			vx.Reach("preserved-line-feed")
